@@ -176,6 +176,7 @@ def laxCat (B : Backend) (op : String) (args : List Sx) (impl : Sx) : Option Out
     length 0, 1, 2 or 3 chosen by `k % 4` -/
 def famObj (variant : Nat) (k : Nat) : L :=
   if variant == 0 then [k]
+  else if variant == 2 then (if k % 2 == 0 then [] else [k])
   else match k % 4 with
     | 0 => []
     | 1 => [k]
